@@ -24,7 +24,7 @@ THEOREM_CFG = ("SPECIFICATION Spec\nCONSTANTS\n  WV = {wv}\n  EV <- {ev}\n  MaxN
 THEOREMS = {
     "quick": [("{1, 2, 3}", "EV013", 4, "FALSE"), ("{1, 2}", "EV01", 6, "FALSE"),
               ("{1}", "EV01", 11, "FALSE"), ("{1, 3}", "EVneg", 5, "FALSE")],
-    "thorough": [("{1, 2, 3}", "EV03", 5, "TRUE"), ("{1, 2}", "EV01", 8, "TRUE"), ("{1}", "EV01", 13, "TRUE"),
+    "thorough": [("{1, 2, 3}", "EV013", 5, "TRUE"), ("{1, 2}", "EV01", 8, "TRUE"), ("{1}", "EV01", 13, "TRUE"),
                  ("{1, 3}", "EVneg", 6, "TRUE"), ("{1, 2}", "EVwide", 5, "TRUE"), ("{2, 3}", "EV01", 7, "FALSE")],
 }
 
